@@ -132,7 +132,7 @@ def _engine_nbrs(g):
             net = RDNetwork(species=[Species("A", D=1.0)], reactions=[])
             space = RDGridSpace(w=w, h=h, d=d, boundary_conditions=bcd(bc), cell_vol=1.0)
             dt = 1.0 / 64
-            out = []
+            out, kout = [], []
             for i in range(n):
                 st = [0.0] * n
                 st[i] = 1.0
@@ -144,7 +144,12 @@ def _engine_nbrs(g):
                 x = engine_rec.raw_state(_lib, n)
                 eng.finalize()
                 out.append([float(v) / dt for v in x])
-            msg = pickle.dumps(("ok", out))
+                # the Python kinetics on the same one-hot state: d x_j / dt = number of faces shared with cell i
+                try:
+                    kout.append([float(v) for v in kinetics.compute_dstatedt(system).convert(UnitsSystem()).value])
+                except Exception as e:  # noqa
+                    kout.append(repr(e)[:160])
+            msg = pickle.dumps(("ok", out, kout))
         except BaseException as e:  # noqa
             msg = pickle.dumps(("exc", repr(e)[:200]))
         with os.fdopen(wr, "wb") as f:
@@ -183,6 +188,13 @@ def engine_checks(rep, grids):
                     rep.violation("engine", "geometry:engine-neighbours:loss", dict(tag, source=i, lost_per_kd=loss, spec=sum(want.values())))
                 continue
             break
+        for i in range(n):
+            want = collections.Counter(j for j in g["nbr"][i] if j != i)
+            k = r[2][i]
+            spec = [float(want.get(j, 0)) if j != i else -float(sum(want.values())) for j in range(n)]
+            if isinstance(k, str) or any(abs(a - b) > 1e-9 for a, b in zip(k, spec)):
+                rep.violation("kinetics", "geometry:kinetics-neighbours", dict(tag, source=i, got=k, spec=spec))
+                break
 
 
 def _equiv(args):
